@@ -386,6 +386,13 @@ func (g *gen) op() *Op {
 		vm := e.views[v]
 		val := g.val(vm.kind, detP, vm.buf, true)
 		o := &Op{O: "fill", V: v, K: vm.kind, Val: &val, A1: g.optIdx(vm.length, detP, vm.buf, 30), A2: g.optIdx(vm.length, detP, vm.buf, 40)}
+		if !g.wild && vm.kind == 9 && val.Big { // recorded finding: BigInt64Array.fill stores |v| for negative v
+			z, _ := new(big.Int).SetString(val.Z, 10)
+			w := toBigInt64(z)
+			if w.Sign() < 0 && w.Cmp(new(big.Int).Lsh(big.NewInt(-1), 63)) != 0 {
+				val.Z = new(big.Int).Neg(w).String()
+			}
+		}
 		if val.Big != isBig(vm.kind) { // wrong type: TypeError; keep the other coercions free of effects (order differs, noted)
 			if o.A1 != nil {
 				o.A1.D = 0
@@ -473,13 +480,9 @@ func genCase(r *vh.Rng, wild bool) Case {
 	c.Wild = wild
 	var init [][]byte
 	for i := 0; i < nb; i++ {
-		n := bufSizes[r.Intn(len(bufSizes))]
-		b := make([]byte, n)
-		for j := range b {
-			b[j] = byte(r.U64())
-		}
-		init = append(init, b)
-		c.Bufs = append(c.Bufs, fmt.Sprintf("%x", b))
+		bi := BufInit{N: bufSizes[r.Intn(len(bufSizes))], Seed: r.Intn(2147483647)}
+		init = append(init, lcgBytes(bi.N, bi.Seed))
+		c.Bufs = append(c.Bufs, bi)
 	}
 	g := &gen{r: r, e: newEnv(init), wild: wild}
 	nops := 6 + r.Intn(20)
@@ -495,4 +498,13 @@ func genCase(r *vh.Rng, wild bool) Case {
 		}
 	}
 	return c
+}
+
+func toBigInt64(n *big.Int) *big.Int {
+	two64 := new(big.Int).Lsh(big.NewInt(1), 64)
+	r := new(big.Int).Mod(n, two64)
+	if r.Cmp(new(big.Int).Lsh(big.NewInt(1), 63)) >= 0 {
+		r.Sub(r, two64)
+	}
+	return r
 }
